@@ -115,6 +115,7 @@ pub struct OpWeights {
     pub consume: u32,
     pub detach: u32,
     pub query: u32,
+    pub call_drop: u32,
     pub max_sleep: u32,
 }
 
@@ -136,6 +137,7 @@ pub const MSG_WEIGHTS: OpWeights = OpWeights {
     consume: 0,
     detach: 0,
     query: 0,
+    call_drop: 0,
     max_sleep: 4,
 };
 
@@ -168,6 +170,7 @@ pub fn client_op(w: OpWeights) -> BoxedStrategy<ClientOp> {
         (w.consume, prop_oneof![h().prop_map(|h| ClientOp::Consume { h }), h().prop_map(|h| ClientOp::ConsumeSync { h })].boxed()),
         (w.detach, h().prop_map(|h| ClientOp::Detach { h }).boxed()),
         (w.query, prop_oneof![h().prop_map(|h| ClientOp::QueryStopped { h }), h().prop_map(|h| ClientOp::QueryRunning { h })].boxed()),
+        (w.call_drop, (h(), work(2, w.max_sleep), 0u8..4).prop_map(|(h, work, polls)| ClientOp::CallDrop { h, work, polls }).boxed()),
     ];
     alts.retain(|(w, _)| *w > 0);
     proptest::strategy::Union::new_weighted(alts).boxed()
@@ -188,6 +191,86 @@ pub fn finalize(mut c: Case) -> Case {
     c
 }
 
+/// Re-establish the generator invariants of the case's family after structural edits (used by the
+/// fuzz decoder; idempotent on generated cases).
+pub fn normalize(c: &mut Case) {
+    // documented usage only: no restart of a stream-attached actor, no handler duration equal to the timeout
+    let stream = c.actors.first().is_some_and(|a| a.spawn.is_stream());
+    let mut pub_id = 1;
+    let mut tag = 1;
+    for cl in &mut c.clients {
+        for op in cl.iter_mut() {
+            match op {
+                ClientOp::Publish { id, .. } => {
+                    *id = pub_id;
+                    pub_id += 1;
+                }
+                ClientOp::Send { work, .. } | ClientOp::Call { work, .. } | ClientOp::CallDrop { work, .. } => {
+                    if stream {
+                        work.retain(|s| !matches!(s, Step::CtxRestart));
+                    }
+                    for s in work.iter_mut() {
+                        match s {
+                            Step::Publish { id, .. } => {
+                                *id = pub_id;
+                                pub_id += 1;
+                            }
+                            Step::SendToChildren { tag: t, .. } => {
+                                *t = tag;
+                                tag += 1;
+                            }
+                            _ => {}
+                        }
+                    }
+                }
+                ClientOp::Restart { .. } if stream => *op = ClientOp::Yield,
+                _ => {}
+            }
+        }
+    }
+    avoid_exact_timeout(c);
+    if c.family == Family::C10 {
+        limit_slow_timers(c);
+    }
+    if c.family == Family::C06 {
+        c.faults.clear();
+    }
+    let h = crate::interp::horizon_of(c);
+    c.settle = (h / 2).min(100_000) as u32 + 1 + if c.family == Family::C09 { 20 } else { 0 };
+}
+
+/// at most one repeating timer with a slow handler (load < 1): the actor must be able to keep up
+/// with its own timers
+pub fn limit_slow_timers(c: &mut Case) {
+    let mut slow_seen = false;
+    let mut fix = |t: &mut TimerSpec| {
+        if t.work.iter().any(|s| matches!(s, Step::Sleep(_))) {
+            if slow_seen {
+                t.work.clear();
+            }
+            slow_seen = true;
+        }
+    };
+    for a in &mut c.actors {
+        for s in &mut a.beh.started {
+            if let Step::AddTimer(t) = s {
+                fix(t);
+            }
+        }
+    }
+    for cl in &mut c.clients {
+        for op in cl.iter_mut() {
+            if let ClientOp::Call { work, .. } | ClientOp::Send { work, .. } = op {
+                for s in work.iter_mut() {
+                    if let Step::AddTimer(t) = s {
+                        fix(t);
+                    }
+                }
+            }
+        }
+    }
+}
+
 fn one_actor(spawn: SpawnSpec, beh: Behavior) -> Vec<ActorSpec> {
     vec![ActorSpec { kind: 0, spawn, parent: None, beh, peer: None }]
 }
@@ -203,7 +286,7 @@ pub fn c01(big: bool) -> BoxedStrategy<Case> {
                 Just(spawn),
                 Just(started),
                 grants(n, owning, 1),
-                clients(n..=n, 3..=max_ops, MSG_WEIGHTS),
+                clients(n..=n, 3..=max_ops, OpWeights { call_drop: 3, ..MSG_WEIGHTS }),
                 schedule(if big { 96 } else { 48 }),
             )
         })
@@ -243,7 +326,7 @@ pub fn c02(big: bool) -> BoxedStrategy<Case> {
         3 => (0u32..14).prop_map(Cause::Cancel),
         2 => (1u32..6).prop_map(Cause::TimeoutFail),
     ];
-    let w = OpWeights { stop: 3, halt: 2, try_stop: 2, await_: 3, drop: 3, join: 2, consume: 1, max_sleep: 8, ..MSG_WEIGHTS };
+    let w = OpWeights { stop: 3, halt: 2, try_stop: 2, await_: 3, drop: 3, join: 2, consume: 1, call_drop: 7, max_sleep: 8, ..MSG_WEIGHTS };
     (plain_spawn(false), cause, 1usize..=4)
         .prop_flat_map(move |(spawn, cause, n)| {
             let owning = spawn.owning();
@@ -283,7 +366,7 @@ pub fn avoid_exact_timeout(c: &mut Case) {
     let Some((t, _)) = c.actors.first().and_then(|a| a.spawn.timeout()) else { return };
     for cl in &mut c.clients {
         for op in cl {
-            if let ClientOp::Send { work, .. } | ClientOp::Call { work, .. } = op {
+            if let ClientOp::Send { work, .. } | ClientOp::Call { work, .. } | ClientOp::CallDrop { work, .. } = op {
                 let total: u32 = work.iter().map(|s| if let Step::Sleep(x) = s { *x } else { 0 }).sum();
                 if total == t {
                     work.push(Step::Sleep(1));
@@ -300,12 +383,17 @@ fn sanitize(c: &mut Case) {
     if stream {
         for cl in &mut c.clients {
             for op in cl.iter_mut() {
-                if let ClientOp::Send { work, .. } | ClientOp::Call { work, .. } = op {
+                if let ClientOp::Send { work, .. } | ClientOp::Call { work, .. } | ClientOp::CallDrop { work, .. } = op {
                     work.retain(|s| !matches!(s, Step::CtxRestart));
                 }
             }
         }
     }
+}
+
+/// steps of a `stopped` / `finished` callback: often instantaneous, sometimes suspending
+fn slow_callback() -> BoxedStrategy<Vec<Step>> {
+    prop_oneof![2 => Just(vec![]), 1 => Just(vec![Step::Yield]), 1 => (1u32..4).prop_map(|t| vec![Step::Sleep(t)]), 1 => (1u32..3).prop_map(|t| vec![Step::Yield, Step::Sleep(t), Step::Yield])].boxed()
 }
 
 fn stream_spawn() -> BoxedStrategy<SpawnSpec> {
@@ -352,7 +440,7 @@ pub fn c03(big: bool) -> BoxedStrategy<Case> {
             (2, any::<u8>().prop_map(|stream| ClientOp::EndStream { stream }).boxed()),
         ],
     );
-    (spawn, start_fail, started_with_timers(2), 1usize..=3)
+    (spawn, start_fail, (started_with_timers(2), slow_callback(), slow_callback()), 1usize..=3)
         .prop_flat_map(move |(spawn, start_fail, started, n)| {
             let owning = spawn.owning();
             (
@@ -364,8 +452,8 @@ pub fn c03(big: bool) -> BoxedStrategy<Case> {
                 schedule(if big { 96 } else { 48 }),
             )
         })
-        .prop_map(|(spawn, start_fail, started, grants, clients, schedule)| {
-            let beh = Behavior { started, start_fail, ..Default::default() };
+        .prop_map(|(spawn, start_fail, (started, stopped, finished), grants, clients, schedule)| {
+            let beh = Behavior { started, start_fail, stopped, finished, ..Default::default() };
             let mut c = Case {
                 family: Family::C03,
                 actors: one_actor(spawn, beh.clone()),
@@ -387,15 +475,15 @@ pub fn c04(big: bool) -> BoxedStrategy<Case> {
     let max_ops = if big { 14 } else { 9 };
     let base = OpWeights { stop: 7, halt: 4, try_stop: 5, await_: 7, drop: 0, give: 2, join: 3, consume: 2, max_sleep: 4, send: 28, call: 24, ping: 5, convert: 8, ..MSG_WEIGHTS };
     let op = mixed_ops(base, vec![(8, msg_op(1, 1, ctx_work(3, 3, 0)))]);
-    (plain_spawn(false), 2usize..=4)
-        .prop_flat_map(move |(spawn, n)| {
+    (plain_spawn(false), 2usize..=4, slow_callback())
+        .prop_flat_map(move |(spawn, n, stopped)| {
             let owning = spawn.owning();
-            (Just(spawn), grants(n, owning, 3), vec(vec(op.clone(), 3..=max_ops), n..=n), schedule(if big { 96 } else { 48 }))
+            (Just(spawn), Just(stopped), grants(n, owning, 3), vec(vec(op.clone(), 3..=max_ops), n..=n), schedule(if big { 96 } else { 48 }))
         })
-        .prop_map(|(spawn, grants, clients, schedule)| {
+        .prop_map(|(spawn, stopped, grants, clients, schedule)| {
             finalize(Case {
                 family: Family::C04,
-                actors: one_actor(spawn, Behavior::default()),
+                actors: one_actor(spawn, Behavior { stopped, ..Default::default() }),
                 default_beh: vec![],
                 grants,
                 clients,
@@ -423,7 +511,7 @@ pub fn c05(big: bool) -> BoxedStrategy<Case> {
                 // few handles so that the last one is really dropped by the clients
                 vec(vec(grant_kind(4), 0..=2), n),
                 Just(owning),
-                clients(n..=n, 2..=max_ops, base),
+                vec(vec(mixed_ops(base, vec![(8, (0u8..2, any::<bool>()).prop_map(|(topic, st)| ClientOp::Publish { how: if st { PubHow::Static } else { PubHow::ViaAddr }, topic, id: 0 }).boxed())]), 2..=max_ops), n..=n),
                 // tails: drop what is left, then probe the weak handles
                 vec(
                     vec(
@@ -689,15 +777,15 @@ pub fn c13(big: bool) -> BoxedStrategy<Case> {
             (3, any::<u8>().prop_map(|stream| ClientOp::EndStream { stream }).boxed()),
         ],
     );
-    (stream_spawn(), started_with_timers(1), 1usize..=3)
-        .prop_flat_map(move |(spawn, started, n)| {
+    (stream_spawn(), started_with_timers(1), 1usize..=3, slow_callback(), slow_callback())
+        .prop_flat_map(move |(spawn, started, n, finished, stopped)| {
             let owning = spawn.owning();
-            (Just(spawn), Just(started), grants(n, owning, 1), vec(vec(op.clone(), 3..=max_ops), n..=n), schedule(if big { 96 } else { 48 }))
+            (Just(spawn), Just((started, finished, stopped)), grants(n, owning, 1), vec(vec(op.clone(), 3..=max_ops), n..=n), schedule(if big { 96 } else { 48 }))
         })
-        .prop_map(|(spawn, started, grants, clients, schedule)| {
+        .prop_map(|(spawn, (started, finished, stopped), grants, clients, schedule)| {
             let mut c = Case {
                 family: Family::C13,
-                actors: one_actor(spawn, Behavior { started, ..Default::default() }),
+                actors: one_actor(spawn, Behavior { started, finished, stopped, ..Default::default() }),
                 default_beh: vec![],
                 grants,
                 clients,
@@ -728,9 +816,9 @@ pub fn c17(big: bool) -> BoxedStrategy<Case> {
     ];
     let base = OpWeights { send: 22, call: 22, ping: 4, convert: 10, yield_: 4, sleep: 3, give: 2, drop: 3, stop: 6, halt: 1, await_: 2, join: 12, consume: 4, detach: 3, max_sleep: 4, ..MSG_WEIGHTS };
     let op = mixed_ops(base, vec![(5, msg_op(1, 1, ctx_work(3, 3, 0)))]);
-    (spawn, cause, 1usize..=3)
-        .prop_flat_map(move |(spawn, cause, n)| (Just(spawn), Just(cause), grants(n, true, 1), vec(vec(op.clone(), 3..=max_ops), n..=n), schedule(if big { 96 } else { 48 })))
-        .prop_map(|(spawn, cause, grants, clients, schedule)| {
+    (spawn, cause, 1usize..=3, slow_callback())
+        .prop_flat_map(move |(spawn, cause, n, stopped)| (Just(spawn), Just((cause, stopped)), grants(n, true, 1), vec(vec(op.clone(), 3..=max_ops), n..=n), schedule(if big { 96 } else { 48 })))
+        .prop_map(|(spawn, (cause, stopped), grants, clients, schedule)| {
             let mut faults = vec![];
             match cause {
                 Cause::StartFail(how) => faults.push(Fault::StartFail { actor: 0, inc: 0, how }),
@@ -739,7 +827,8 @@ pub fn c17(big: bool) -> BoxedStrategy<Case> {
                 Cause::Cancel(j) => faults.push(Fault::CancelActor { actor: 0, before_poll: j }),
                 _ => {}
             }
-            let mut c = Case { family: Family::C17, actors: one_actor(spawn, Behavior::default()), default_beh: vec![], grants, clients, faults, schedule, settle: 0 };
+            let beh = Behavior { stopped, ..Default::default() };
+            let mut c = Case { family: Family::C17, actors: one_actor(spawn, beh.clone()), default_beh: vec![beh], grants, clients, faults, schedule, settle: 0 };
             sanitize(&mut c);
             finalize(c)
         })
@@ -840,7 +929,7 @@ pub fn c16(big: bool) -> BoxedStrategy<Case> {
             let mut next = 1;
             for cl in &mut c.clients {
                 for op in cl.iter_mut() {
-                    if let ClientOp::Send { work, .. } | ClientOp::Call { work, .. } = op {
+                    if let ClientOp::Send { work, .. } | ClientOp::Call { work, .. } | ClientOp::CallDrop { work, .. } = op {
                         for s in work.iter_mut() {
                             if let Step::SendToChildren { tag, .. } = s {
                                 *tag = next;
@@ -968,7 +1057,7 @@ pub fn c09(big: bool) -> BoxedStrategy<Case> {
                             *id = next;
                             next += 1;
                         }
-                        ClientOp::Send { work, .. } | ClientOp::Call { work, .. } => {
+                        ClientOp::Send { work, .. } | ClientOp::Call { work, .. } | ClientOp::CallDrop { work, .. } => {
                             for s in work.iter_mut() {
                                 if let Step::Publish { id, .. } = s {
                                     *id = next;
